@@ -319,7 +319,10 @@ complete assignment lies on the zeros of the returned reduced matrix.
 -- never-starred columns always uncovered (the invariant C = cost − u − v IS proved:
 -- `solve_reduced_rowcol`).  The driver evaluates `certOK` on every model
 -- answer; the harness counts failures (`model_answers_not_certified`, expected 0) over the exhaustive
--- small scopes and the sampled stream. -/
+-- small scopes and the sampled stream.
+-- UPDATE: the FULL statement is now proved — step invariants and certification of every answer in
+-- `Props/C14Inv.lean` (`solve_certified`, `solve_optimal`, `solveChecked_eq_solve`), termination in
+-- `Props/C14Term.lean` (`solve_total`, `solve_correct`).  This theorem is kept as stated. -/
 theorem solveChecked_optimal_partial (inp : Input) (o : Output) (h : solveChecked inp = .ok o) :
     IsAssign inp.n inp.m o.pairs
     ∧ (o.pairs.map Prod.fst).Pairwise (· < ·)
